@@ -116,7 +116,8 @@ func c08Sent(v c08Hdrs, i int, cfg c08Cfg) bool {
 	return false
 }
 
-func c08Check(L *ev.Layer, cfg c08Cfg, conn c08Conn, v c08Hdrs, reqHost, peerIP, upAddr string, s *seen, respHdr http.Header) {
+// c08TLS: the TLS connection state of the case at hand (nil on plain connections and in the real-socket layer)
+func c08Check(L *ev.Layer, cfg c08Cfg, conn c08Conn, v c08Hdrs, reqHost, peerIP, upAddr string, s *seen, respHdr http.Header, cs ...*tls.ConnectionState) {
 	d := map[string]interface{}{"config": fmt.Sprintf("%+v", cfg), "connection": conn.String(), "client_headers": c08Headers(v, cfg, ""), "host": reqHost, "peer": peerIP}
 	if s == nil {
 		L.Violation("upstream-not-contacted", d)
@@ -183,6 +184,14 @@ func c08Check(L *ev.Layer, cfg c08Cfg, conn c08Conn, v c08Hdrs, reqHost, peerIP,
 		}
 		if cfg.localIP != "" && !strings.Contains(fwd, "by="+cfg.localIP) {
 			fail("forwarded-header-lacks-by")
+		}
+		// the TLS parameters fabio adds describe this connection (connections with other versions and cipher suites come before and after it)
+		if len(cs) == 1 && cs[0] != nil {
+			wantCipher := fmt.Sprintf("tlscipher=0x%04x", cs[0].CipherSuite)
+			if !strings.Contains(fwd, wantCipher) {
+				d["want_in_forwarded"] = wantCipher
+				fail("forwarded-header-describes-another-connection")
+			}
 		}
 	}
 	if !c08Sent(v, 5, cfg) {
@@ -290,7 +299,7 @@ func (c c08Cfg) apply(r *rig) {
 
 func TestVerifC08Headers(t *testing.T) {
 	L := ev.Begin("C08", "c08-headers", "exploration",
-		"header-related configuration (client-ip header none/custom/X-Real-Ip/X-Forwarded-For x TLS header none/set (canonical and non-canonical spellings) x LocalIP/HSTS variants x route host option none/name/dst) x connection plain/TLS x every subset of 8 fabio-managed headers forged by the client (2^8) plus repeated, lower-case, empty and blank-line variants x Host with/without port and as IPv6 literal x IPv4/IPv6 peer x a Connection header that names the managed headers as hop-by-hop (on one line, behind a keep-alive line, one lower-case name per line), served by the real HTTPProxy to a recording upstream; plus redirect routes (to https and http targets) on plain and TLS connections; oracle = the six clauses of the statement. non-trivial = at least one forged header or a TLS connection")
+		"header-related configuration (client-ip header none/custom/X-Real-Ip/X-Forwarded-For x TLS header none/set (canonical and non-canonical spellings) x LocalIP/HSTS variants x route host option none/name/dst) x connection plain/TLS (cipher suite and version varying from case to case) x every subset of 8 fabio-managed headers forged by the client (2^8) plus repeated, lower-case, empty and blank-line variants x Host with/without port and as IPv6 literal x IPv4/IPv6 peer x a Connection header that names the managed headers as hop-by-hop (on one line, behind a keep-alive line, one lower-case name per line), served by the real HTTPProxy to a recording upstream; plus redirect routes (to https and http targets) on plain and TLS connections; oracle = the six clauses of the statement. non-trivial = at least one forged header or a TLS connection")
 	cfgs := c08Configs()
 	sets := c08HeaderSets(true)
 	type job struct {
@@ -330,7 +339,12 @@ func TestVerifC08Headers(t *testing.T) {
 		r.script = script{status: 200, chunks: [][]byte{[]byte("ok")}}
 		var cs *tls.ConnectionState
 		if j.conn == c08TLS {
-			cs = &tls.ConnectionState{Version: tls.VersionTLS12, CipherSuite: tls.TLS_ECDHE_RSA_WITH_AES_128_GCM_SHA256, HandshakeComplete: true}
+			// clients differ in what they negotiate: the cipher suite (and now and then the version) changes from case to case
+			suites := []uint16{tls.TLS_ECDHE_RSA_WITH_AES_128_GCM_SHA256, tls.TLS_ECDHE_RSA_WITH_AES_256_GCM_SHA384, tls.TLS_ECDHE_ECDSA_WITH_CHACHA20_POLY1305_SHA256}
+			cs = &tls.ConnectionState{Version: tls.VersionTLS12, CipherSuite: suites[i%len(suites)], HandshakeComplete: true}
+			if i%5 == 0 {
+				cs.Version, cs.CipherSuite = tls.VersionTLS13, tls.TLS_AES_128_GCM_SHA256
+			}
 		}
 		hdrs := c08Headers(j.v, j.cfg, "")
 		if j.hop {
@@ -378,7 +392,7 @@ func TestVerifC08Headers(t *testing.T) {
 		if i%4099 == 0 {
 			L.Sample(map[string]interface{}{"config": fmt.Sprintf("%+v", j.cfg), "conn": j.conn.String(), "client_headers": c08Headers(j.v, j.cfg, ""), "host": j.host})
 		}
-		c08Check(L, j.cfg, j.conn, j.v, j.host, j.peer, r.upAddr, s, rec.Header())
+		c08Check(L, j.cfg, j.conn, j.v, j.host, j.peer, r.upAddr, s, rec.Header(), cs)
 	})
 	// responses fabio writes itself (redirect routes, also to an https target): HSTS only on TLS connections
 	rr := newRig()
